@@ -857,7 +857,13 @@ class PE:
         return self._comprehension(e, p, "list")
 
     def ev_SetComp(self, e, p):
-        return [(self.opaque_expr(e, p), p)]
+        out = []
+        for v, q in self._comprehension(e, p, "set"):
+            if isinstance(v, Lst):
+                out.append((Dct("set", {show(x): (x, x) for x in v.items}, v.open, name=f"set@{e.lineno}", opens=v.opens), q))
+            else:
+                out.append((v, q))
+        return out
 
     def ev_DictComp(self, e, p):
         return [(self.opaque_expr(e, p), p)]
@@ -869,38 +875,48 @@ class PE:
         out = []
         for it, q in self.ev(g.iter, p):
             elems, open_ = self.iter_elems(it, q, g.iter)
+            opens = self.last_opens if open_ else ()
             saved = dict(q.env)
-            vals = []
-            ok = True
+            states = [([], q)]
             for el in elems:
-                self.bind(g.target, el, q)
-                r = self.ev(e.elt, q)
-                if len(r) != 1:
-                    ok = False
+                nxt = []
+                for vals, qq in states:
+                    self.bind(g.target, el, qq)
+                    for v2, q2 in self.ev(e.elt, qq):
+                        nxt.append((vals + [v2], q2))
+                states = nxt
+                if len(states) > 64:
                     break
-                vals.append(r[0][0])
-            q.env = saved
-            if not ok:
+            if len(states) > 64:
+                q.env = saved
                 out.append((self.opaque_expr(e, q), q))
-            else:
-                out.append((Lst(vals, open_, name=f"comp@{e.lineno}"), q))
+                continue
+            for vals, qq in states:
+                for k in list(qq.env):
+                    if k not in saved:
+                        del qq.env[k]
+                for k, v0 in saved.items():
+                    qq.env[k] = v0
+                out.append((Lst(vals, open_, name=f"comp@{e.lineno}", opens=opens), qq))
         return out
 
     def iter_elems(self, it: V, p: Path, node) -> Tuple[List[V], bool]:
         """Known elements of an iterable and whether unknown ones may follow."""
+        self.last_opens = ()
         if isinstance(it, Tup):
             return list(it.items), False
         if isinstance(it, Lst):
+            self.last_opens = it.opens or ((it.name,) if it.open else ())
             return list(it.items), it.open
         if isinstance(it, Dct):
-            if it.kind == "set":
-                return [kv for kv, _ in it.entries.values()], it.open
+            self.last_opens = it.opens or ((it.name,) if it.open else ())
             return [kv for kv, _ in it.entries.values()], it.open
         if isinstance(it, Const) and isinstance(it.v, (tuple, list)):
             return [Const(x) for x in it.v], False
         # unknown iterable: generic elements
         n = self.generic_elems
         base = show(it)
+        self.last_opens = (base,)
         reg = self.__dict__.setdefault("_iter_ids", {})
         iid = reg.setdefault(base, len(reg) + 1)
         els = []
